@@ -9,6 +9,7 @@ func checkC06(p *Prog, r *Report) {
 	r.Trusted = []string{"cosmos-sdk v0.47.12 x/nft keeper"}
 	pnftAuthRules(p, r, "C06")
 	wireAnte(p, r, "C06")
+	checkSignBytesBindMessage(p, r, "C06", "x/pnft")
 	checkInitGenesisCallers(p, r, "C06", "x/pnft")
 	wireKeyOwnership(p, r, BuildWire(p), "C06", "pnft", []string{"x/pnft/keeper.NewKeeper"}, "denoms, tokens and their owners")
 }
